@@ -12,4 +12,4 @@ for P in "$@"; do
 done
 git -C /repo checkout -- .
 rm -rf /verif/evidence; mv /verif/.work/evidence.keep /verif/evidence
-python3 /verif/tools/gen_all.py >/dev/null
+JAMM_GEN_API=1 python3 /verif/tools/gen_all.py >/dev/null
